@@ -195,6 +195,11 @@ func (m *Model) Do(op Op) {
 			m.Dirty[t] = true
 		}
 		*c = Cfg{}
+		// cancelling one method of the interface variable: what becomes of the sibling method's mock is not
+		// settled by the statements (goom restores the whole variable)
+		if sib := map[Target]Target{TXA: TXB, TXB: TXA}[t]; (t == TXA || t == TXB) && len(m.Owners(sib)) > 0 {
+			m.Dirty[sib] = true
+		}
 	}
 	if c.Kind != 0 {
 		m.Ever[op.B][t] = true
@@ -213,6 +218,11 @@ func (m *Model) clean(t Target) {
 
 // Judged tells whether the behaviour of t is determined by the statements.
 func (m *Model) Judged(t Target) bool {
+	// a method of the interface variable that is not mocked while its sibling is: the statement does not say
+	// what the replaced variable does for it
+	if (t == TXA && len(m.Owners(TXB)) > 0 || t == TXB && len(m.Owners(TXA)) > 0) && len(m.Owners(t)) == 0 {
+		return false
+	}
 	if m.JustRestored[t] {
 		return true
 	}
@@ -234,7 +244,7 @@ func (m *Model) Expect(t Target) []string {
 	for i, a := range ProbeArgs {
 		switch {
 		case c == nil || c.Kind == 0:
-			if t == TXA {
+			if t == TXA || t == TXB {
 				out[i] = "panic:nil pointer"
 			} else {
 				out[i] = fmt.Sprint(OrigOf(t, a))
